@@ -11,13 +11,13 @@ for d in sorted(glob.glob(os.path.join(ROOT, "seeded", "*", ""))):
     if only and not any(sid.startswith(o) for o in only):
         continue
     meta = json.load(open(d + "meta.json"))
-    prop = meta["breaks_property"]
-    t0 = time.time()
-    proc = subprocess.run([sys.executable, os.path.join(ROOT, "tools/sensitivity.py"), "--patch", d + "patch.diff", prop], capture_output=True, text=True)
-    sigs = [l.split("signature:")[1].strip()[:90] for l in proc.stdout.splitlines() if "signature:" in l]
-    caught = any(l.startswith("VIOLATION") for l in proc.stdout.splitlines())
-    rows.append((sid, prop, "caught" if caught else "MISSED", round(time.time() - t0), "; ".join(sigs[:3])))
-    print(rows[-1], flush=True)
+    for prop in meta.get("check_with", [meta["breaks_property"]]):
+        t0 = time.time()
+        proc = subprocess.run([sys.executable, os.path.join(ROOT, "tools/sensitivity.py"), "--patch", d + "patch.diff", prop], capture_output=True, text=True)
+        sigs = [l.split("signature:")[1].strip()[:90] for l in proc.stdout.splitlines() if "signature:" in l]
+        caught = any(l.startswith("VIOLATION") for l in proc.stdout.splitlines())
+        rows.append((sid, prop, "caught" if caught else "MISSED", round(time.time() - t0), "; ".join(sigs[:3])))
+        print(rows[-1], flush=True)
 with open(os.path.join(ROOT, "seeded", "RESULTS.md"), "w") as fh:
     fh.write("# Seeded changes vs. the quick tier (VERIF_SEED=1) of the check of the property they break\n\n")
     fh.write("Produced by tools/seeded_matrix.py (scratch copy of /repo HEAD + patch; /repo itself untouched).\n\n")
